@@ -124,6 +124,12 @@ def gen_cases(tier):
             add("nested-split-bracket", ["[" + a, "[" + b, "OP_3]]"], "split")
             add("nested-split-bracket", ["[[[" + a, b + "]", "OP_3]", "4]"], "split")
             add("nested-split-bracket", ["[[" + a + "]", b + "]"], "split")
+            # two groups typed without quotes in one invocation, of different shapes, with other tokens around them (state kept from the
+            # first group - a scan offset, a depth - must not reach the second)
+            add("two-split-brackets", ["[" + a, b + "]", "[0xaabbcc", "4", a + "]"], "split")
+            add("two-split-brackets", ["[" + a, b + "]", "OP_DUP", "[OP_3", "[4", b + "]]", "OP_EQUAL"], "split")
+            add("two-split-brackets", ["10", "[OP_1", "OP_2]", "[" + a, "OP_HASH160", "0xabcd", b + "]"], "split")
+            add("two-split-brackets", ["[[" + a, "OP_2]", b + "]", "[" + b, a + "]"], "split")
             for nm, sep in SEPS:
                 add("ws-" + nm, ["[" + a + sep + b + "]"])
                 add("ws-" + nm + "-padded", ["[ " + a + sep + b + sep + "]"])
@@ -194,6 +200,28 @@ def b_check(out_bytes, exp_ops):
     return "equivalent-and-minimal"
 
 
+def rejoin_split(argv):
+    """the argv items as the user meant them: pieces of a bracketed group typed without quotes are joined with one space again,
+    items outside a group stay items of their own (a single split group gives one item, as before)"""
+    out, acc, depth = [], None, 0
+    for v in argv:
+        bal = v.count("[") - v.count("]")
+        if acc is None:
+            if v.startswith("[") and bal > 0:
+                acc, depth = v, bal
+            else:
+                out.append(v)
+        else:
+            acc += " " + v
+            depth += bal
+            if depth <= 0:
+                out.append(acc)
+                acc = None
+    if acc is not None:
+        out.append(acc)
+    return out
+
+
 def run_case(case):
     """-> (cls, mode, outcome, key|None, what|None, replay|None, sample|None)"""
     cls, mode, argv = case
@@ -208,7 +236,7 @@ def run_case(case):
     if st == "crash":
         return (cls, mode, "crash", "crash:btcc:%s:%s" % (rc, crash_what(err)), "btcc %s died with %s; stderr: %s" % (short(argv), rc, err[-300:]), rp, None)
     notes, ops = [], []
-    toks = argv if mode == "asm" else [" ".join(argv)]
+    toks = argv if mode == "asm" else rejoin_split(argv)
     try:
         exp = R.assemble(toks, notes, ops)
     except R.OutOfGrammar as ex:
